@@ -119,6 +119,29 @@ class IsValid(RecProbe):
             probe = T.tp_from_inst(m, T.inst(m, member) + rng.choice([0, 0, 0, 1, -1]), rng.choice([base[0], "c", "o", "w"]),
                                    pz[0], pz[1], use24=rng.random() < 0.6)
             yield (m, rec, tuple(sorted(info.items())), probe)
+        # whole-year (and whole-month) steps from anchors next to a year boundary, probed at members written in
+        # another representation - around New Year the ISO week-year of a day differs from its calendar year
+        n2 = 150 * boost if tier == "quick" else 1500 * boost
+        for _ in range(n2):
+            m = gens.mode(rng)
+            anchor = T.gen_year_edge_tp(rng, m, year=rng.choice([2000, 2004, 2005, 2009, 2010, 2015, 2016, 2020, 2021, 1999,
+                                                                 rng.randint(1900, 2100)]))
+            d = rng.choice([("U", 1, 0, 0, 0, 0, 0), ("U", 2, 0, 0, 0, 0, 0), ("U", 2, 0, 0, 0, 0, 0), ("U", 3, 0, 0, 0, 0, 0),
+                            ("U", 4, 0, 0, 0, 0, 0), ("U", 5, 0, 0, 0, 0, 0), ("U", 0, 12, 0, 0, 0, 0), ("U", 0, 24, 0, 0, 0, 0)])
+            fmt = rng.choice([3, 3, 4])
+            if fmt == 3:
+                rec, info = (None, anchor, d, None), dict(fmt=3, anchor=anchor, interval=d, reps=None)
+            else:
+                rec, info = (None, None, d, anchor), dict(fmt=4, anchor=anchor, interval=d, reps=None)
+            series, _rev = R.expected_series(m, info, 6)
+            if not series:
+                continue
+            member = rng.choice(series[1:] or series)
+            rep = rng.choice([x for x in "cow" if x != anchor[0]])
+            pz = (anchor[7], anchor[8]) if rng.random() < 0.6 else gens.offset(rng)
+            probe = T.tp_from_inst(m, T.inst(m, member) + rng.choice([0, 0, 0, 0, 1, -86400]), rep, pz[0], pz[1],
+                                   use24=rng.random() < 0.2)
+            yield (m, rec, tuple(sorted(info.items())), probe)
 
     def line(self, a):
         return "rvalid %s %d %s %s" % (a[0], fuel_for(a), R.rec_line(a[1]), T.tp_str(a[3]))
